@@ -507,6 +507,13 @@ impl Scenario for Flow {
                                 }
                             }
                         }
+                        // the label the peek reports is one decap refuses as a label: the two disagree about the very
+                        // label of the packet (other refusals - storage, extensions - say nothing about the label)
+                        if let (Ok(LabelorFragId::Lbl(l)), "err", "InvalidLabel") = (pkr, obs.class, obs.err.as_str()) {
+                            if ex.report(Violation::new("C19", "C19.peek_vs_decap", format!("{}:lt{}:label_refused_by_decap", kind.name(), lt), format!("peek reports the label {:?} of a packet the encapsulator produced, decap refuses the packet with ErrorInvalidLabel", l))) {
+                                stop!();
+                            }
+                        }
                         // agreement with decap's own association
                         if let (Ok(LabelorFragId::Lbl(l)), Some(dl)) = (pkr, obs.label) {
                             if (kind == Kind::Complete || kind == Kind::First) && obs.class != "err" && from_label(l) != dl {
